@@ -150,6 +150,34 @@ func (e *Engine) registerIntrinsics() {
 	r(vnPkg+".TaintOf", func(c *CallCtx) []Outcome {
 		return c.ret(I(int64(sTaint(c.args[0].(*Str)))))
 	})
+	r(vnPkg+".Watch", func(c *CallCtx) []Outcome {
+		iv := c.args[0].(IfaceV)
+		switch x := iv.v.(type) {
+		case Ptr:
+			c.st.ghost[fmt.Sprintf("watch:%d", x.obj)] = tTrue
+		case MapV:
+			c.st.ghost[fmt.Sprintf("watch:%d", x.obj)] = tTrue
+		}
+		c.st.audit = true
+		return c.ret(nil)
+	})
+	r(vnPkg+".Unwatch", func(c *CallCtx) []Outcome {
+		for k := range c.st.ghost {
+			if strings.HasPrefix(k, "watch:") {
+				delete(c.st.ghost, k)
+			}
+		}
+		c.st.audit = false
+		return c.ret(nil)
+	})
+	r(vnPkg+".MutexHeld", func(c *CallCtx) []Outcome {
+		p := c.args[0].(Ptr)
+		mv, ok := c.st.load(p).(MutexV)
+		if !ok {
+			unm("MutexHeld on %T", c.st.load(p))
+		}
+		return c.ret(B(mv.held != 0))
+	})
 	r(vnPkg+".Bound", func(c *CallCtx) []Outcome {
 		name := mustConstStr(c.args[0])
 		def := mustConstInt(c.args[1])
